@@ -121,6 +121,12 @@ def fraction_numerator_is_nonzero(expr):
         return False
 
 
+def _state_slots(ode: ODE) -> dict[str, int]:
+    """Slot of each state in the generated arrays (the order of state_index),
+    independent of the order in which the (possibly pruned) assignments are printed"""
+    return {state.name: i for i, state in enumerate(ode.sorted_states())}
+
+
 def explicit_euler(
     ode: ODE,
     dt: sympy.Symbol,
@@ -158,18 +164,16 @@ def explicit_euler(
     logger.debug("Generating explicit Euler scheme")
     eqs = []
     values = sympy.IndexedBase(name, shape=(len(ode.state_derivatives),))
-    i = 0
+    state_slots = _state_slots(ode)
     for x in ode.sorted_assignments(remove_unused=remove_unused):
         eqs.append(printer(x.symbol, x.expr, use_variable_prefix=True))
         if isinstance(x, atoms.StateDerivative):
             eqs.append(
                 printer(
-                    values[i],
+                    values[state_slots[x.state.name]],
                     x.state.symbol + dt * x.symbol,
                 )
             )
-
-            i += 1
 
     return eqs
 
@@ -229,12 +233,13 @@ def hybrid_rush_larsen(
     found_stiff_states_set = set()
     eqs = []
     values = sympy.IndexedBase(name, shape=(len(ode.state_derivatives),))
-    i = 0
+    state_slots = _state_slots(ode)
     for x in ode.sorted_assignments(remove_unused=remove_unused):
         eqs.append(printer(x.symbol, x.expr, use_variable_prefix=True))
 
         if not isinstance(x, atoms.StateDerivative):
             continue
+        i = state_slots[x.state.name]
 
         expr_diff = x.expr.diff(x.state.symbol)
         state_is_stiff = x.state.name in stiff_states_set
@@ -247,7 +252,6 @@ def hybrid_rush_larsen(
                     x.state.symbol + dt * x.symbol,
                 )
             )
-            i += 1
             continue
 
         found_stiff_states_set.add(x.state.name)
@@ -271,7 +275,6 @@ def hybrid_rush_larsen(
                 x.state.symbol + RL_term,
             )
         )
-        i += 1
     logger.debug(
         "The following states where marked as stiff but not found in the ODE:",
         extra=stiff_states_set.difference(found_stiff_states_set),
@@ -322,12 +325,13 @@ def generalized_rush_larsen(
     logger.debug("Generating generalized Rush-Larsen scheme")
     eqs = []
     values = sympy.IndexedBase(name, shape=(len(ode.state_derivatives),))
-    i = 0
+    state_slots = _state_slots(ode)
     for x in ode.sorted_assignments(remove_unused=remove_unused):
         eqs.append(printer(x.symbol, x.expr, use_variable_prefix=True))
 
         if not isinstance(x, atoms.StateDerivative):
             continue
+        i = state_slots[x.state.name]
 
         expr_diff = x.expr.diff(x.state.symbol)
 
@@ -339,7 +343,6 @@ def generalized_rush_larsen(
                     x.state.symbol + dt * x.symbol,
                 )
             )
-            i += 1
             continue
 
         linearized_name = x.name + "_linearized"
@@ -361,5 +364,4 @@ def generalized_rush_larsen(
                 x.state.symbol + RL_term,
             )
         )
-        i += 1
     return eqs
